@@ -134,6 +134,19 @@ class YPCodeProgram:
         return generator.generate_program(self)
 
 
+# CPython refuses to compile a function with more statically nested blocks
+_MAX_NESTED_BLOCKS = 20
+
+def _nested_blocks(code):
+    """the number of nested Python blocks that the statements in code need."""
+    depth = 0
+    for c in code:
+        if isinstance(c, YPCodeForeach):
+            depth = max(depth, 1 + _nested_blocks(c.loop_code))
+        elif isinstance(c, YPCodeBreakableBlock):
+            depth = max(depth, (1 if c.body else 0) + _nested_blocks(c.body))
+    return depth
+
 class YPPrologCompiler:
     def __init__(self,context):
         self.context = context
@@ -173,6 +186,11 @@ class YPPrologCompiler:
 
         body_code = self.compile_body(clause.body)
         arg_list_unification_code = self.compile_arg_list_unification(clause.head.functor.args, body_code)
+        # one more block for the loop that wraps the function body
+        if 1 + _nested_blocks(arg_list_unification_code) > _MAX_NESTED_BLOCKS:
+            raise CompilerError(getattr(self.context, 'current_source_file', ''), clause.ctx,
+                    f'clause for {clause.head.name()}/{len(clause.head.args())} is too large:'
+                    f' it needs more than {_MAX_NESTED_BLOCKS} nested Python blocks')
 
         self.pop_bound_vars()
         self.pop_bound_vars()
